@@ -8,7 +8,8 @@ Decides:
      read to the `generate_snapshot_data` call must also be taken by the apply path (every caller of
      `StateMachine::apply_chunk`), otherwise an apply can land between the label and the copy;
  (b) install: every `apply_snapshot_from_file` impl sets last_applied from `metadata.last_included` and
-     REPLACES the data (whole-map assignment / drop+recreate of the column family), never merges;
+     REPLACES the data (whole-map assignment / drop+recreate of the column family), never merges; an engine
+     with a write-ahead log empties it on every successful install;
  (c) after a successful install the role calls `purge_logs_up_to(last_included)` with the installed
      metadata's boundary.
 Necessary conditions, not the whole install/replay equivalence."""
@@ -128,6 +129,24 @@ def run(ctx):
                   "the install merges the snapshot into the existing data instead of replacing it (whole assignments: %d, inserts into "
                   "self.data: %d, drop_cf: %d, create: %d): keys deleted before the boundary survive on the installing node" %
                   (len(whole), len(inserts), len(drops), len(creates)), "%s:%s" % (root.file, root.line))
+
+        # the install replaces the WAL too: an engine that replays a write-ahead log at start (it has a `replay_wal`) must empty
+        # that log as part of the install, after the new data and applied index are persisted - records written BEFORE the
+        # install describe entries at or below the boundary; replayed over the snapshot state at the next start they bring back
+        # values the snapshot had overwritten or deleted
+        has_wal = [f for f in F.bodies.values() if f.parent is None and f.self_ty and strip_generics(f.self_ty) == ty and re.search(r"::replay_wal$", strip_generics(f.id))]
+        if has_wal:
+            mbi = F.main_body(root)
+            clears = [bi for (bi, t) in mbi.calls() if F.call_reaches(t, lambda k: re.search(r"::clear_wal(_async)?$", strip_generics(k)) is not None, 2)]
+            # a call of a helper that merely CONTAINS the word in a comment does not count: call_reaches works on resolved callees
+            errs = [x for x, tt in mbi.calls() if "from_residual" in (callee_key(tt) or "")]
+            errs += [bi for (bi, si, st) in return_aggs(mbi) if st["rv"]["k"] == "agg" and st["rv"].get("v") == "Err"]
+            wit = must_pass(mbi, 0, [], clears + errs, treat_exit_as_goal=True) if clears else [0]
+            ctx.check("C16-b", "%s#install-empties-the-WAL" % fkey(root), bool(clears) and wit is None,
+                      "every successful install empties the write-ahead log",
+                      "apply_snapshot_from_file can return Ok without emptying the WAL: the records the node wrote before the install (indexes at or below the boundary, not yet "
+                      "checkpointed) survive; the next start loads the snapshot state and replays them on top - overwritten keys revert, deleted keys come back, while "
+                      "last_applied stays at the boundary", "%s:%s" % (root.file, root.line), wit and clears and bpath(mbi, wit))
 
     # ---------------------------------------------------------------- C16-c purge to the boundary after install
     sites = [x for x in F.callers_of(lambda k: strip_generics(k).endswith("StateMachineHandler::apply_snapshot_stream_from_leader"))
